@@ -481,6 +481,45 @@ fn kind(dtcode: u32, variant: &str, field: &str) -> (String, Option<String>) {
     }
 }
 
+/// the Sparkplug B datatype names by wire code (the specification's table, written out here on purpose:
+/// independent of `DataType::try_from(u32)`), in the spelling of `MetricValueKind`'s variants
+const SPEC_DT_NAMES: [&str; 35] = [
+    "Unknown", "Int8", "Int16", "Int32", "Int64", "UInt8", "UInt16", "UInt32", "UInt64", "Float", "Double", "Boolean",
+    "String", "DateTime", "Text", "Uuid", "DataSet", "Bytes", "File", "Template", "PropertySet", "PropertySetList",
+    "Int8Array", "Int16Array", "Int32Array", "Int64Array", "UInt8Array", "UInt16Array", "UInt32Array", "UInt64Array",
+    "FloatArray", "DoubleArray", "BooleanArray", "StringArray", "DateTimeArray",
+];
+
+/// (wire code of a datatype a Rust type supports, protobuf value variant srad's own ENCODER writes for that
+/// type): the variant a declared datatype goes with, read off the encoder, not off the decoder under test
+fn encoder_variant_table() -> Vec<(u32, String)> {
+    use srad_types::traits::HasDataType;
+    let mut v = vec![];
+    macro_rules! rows {
+        ($t:ty, $sample:expr) => {{
+            let mv: MetricValue = ($sample).into();
+            let variant = show_metric(&mv.0).split(' ').next().unwrap().to_string();
+            for dt in <$t as HasDataType>::supported_datatypes() {
+                v.push((*dt as u32, variant.clone()));
+            }
+        }};
+    }
+    rows!(i8, 1i8);
+    rows!(i16, 1i16);
+    rows!(i32, 1i32);
+    rows!(i64, 1i64);
+    rows!(u8, 1u8);
+    rows!(u16, 1u16);
+    rows!(u32, 1u32);
+    rows!(u64, 1u64);
+    rows!(f32, 1f32);
+    rows!(f64, 1f64);
+    rows!(bool, true);
+    rows!(String, String::from("a"));
+    rows!(srad_types::DateTime, srad_types::DateTime::new(1));
+    v
+}
+
 /// Execute one op on the implementation; oracle clauses are evaluated here.
 pub fn exec(op: &str, out: &mut Out) -> String {
     let w: Vec<&str> = op.split(' ').collect();
@@ -541,6 +580,18 @@ pub fn exec(op: &str, out: &mut Out) -> String {
             let (a, name) = kind(code, variant, field);
             if a == "panic" {
                 out.fail("C19:no-panic", "kind", format!("{} panicked", op));
+            }
+            // a value of the variant the encoder writes for this declared datatype decodes, and to the variant
+            // the SPECIFICATION names for that wire code
+            if (code as usize) < SPEC_DT_NAMES.len() && encoder_variant_table().iter().any(|(c, v)| *c == code && v == variant) {
+                let want = SPEC_DT_NAMES[code as usize];
+                if name.as_deref() != Some(want) && !(a.starts_with("err") && *variant == "str" && code != 12 && code != 14 && code != 15) {
+                    out.fail(
+                        "C10:kind-named-by-datatype",
+                        want,
+                        format!("{}: declared datatype {} ({}) with the value variant its encoder writes decoded to {}", op, code, want, a),
+                    );
+                }
             }
             if let Some(n) = name {
                 if n != dt_name(code) {
